@@ -34,3 +34,9 @@ func VerifRegistrySizes(r *Resolver) (triggers, subscriptionsByID, connections i
 	defer r.mu.Unlock()
 	return len(r.triggers), len(r.subscriptionsByID), len(r.subscriptionsByConnection)
 }
+
+// VerifIsDeferAncestor runs Resolvable.isDeferAncestor over the given defer descriptors.
+func VerifIsDeferAncestor(descriptors map[int]DeferDescriptor, fieldDeferID, parentID int) bool {
+	r := &Resolvable{deferDescriptors: descriptors}
+	return r.isDeferAncestor(fieldDeferID, parentID)
+}
